@@ -373,8 +373,61 @@ def typed_view_flatten(repo, res, rule):
     return n
 
 
+def e6(repo, res):
+    """E6 the view refresh itself is unconditional: `_update_src_and_sens` (the call that discharges STALE in E1) stores all three typed
+    views on every path from its entry to every exit - an early return (`if not self._children: return`) leaves the views of an emptied
+    collection listing the departed children."""
+    c, fn = find_fn(repo, "BaseCollection", "_update_src_and_sens", False)
+    views = ("_sources", "_sensors", "_collections")
+
+    def literal_rows(it):
+        """the literal tuple / list a loop runs over (directly or through a local bound once to it), or None"""
+        if isinstance(it, ast.Name):
+            ds = [a.value for a in ast.walk(fn) if isinstance(a, ast.Assign) and len(a.targets) == 1 and isinstance(a.targets[0], ast.Name) and a.targets[0].id == it.id]
+            it = ds[0] if len(ds) == 1 else it
+        return it if isinstance(it, (ast.Tuple, ast.List)) and it.elts else None
+    table_names = set()
+    for lp in ast.walk(fn):
+        if isinstance(lp, ast.For) and literal_rows(lp.iter) is not None:
+            table_names |= {x.value for x in ast.walk(literal_rows(lp.iter)) if isinstance(x, ast.Constant) and isinstance(x.value, str)}
+
+    class Cl(BaseClient):
+        def call_may_raise(self, call):
+            return False
+
+        def exit_loop(self, s_, S_before, S_body, S_fix):
+            if isinstance(s_, ast.For) and literal_rows(s_.iter) is not None and S_body is not None:
+                return S_body            # a loop over a non-empty literal table runs at least once
+            return BaseClient.exit_loop(self, s_, S_before, S_body, S_fix)
+
+        def transfer(self, s_, S):
+            for a in ast.walk(s_):
+                if isinstance(a, ast.Assign):
+                    for t in a.targets:
+                        for t1 in (t.elts if isinstance(t, ast.Tuple) else [t]):
+                            if isinstance(t1, ast.Attribute) and isinstance(t1.value, ast.Name) and t1.value.id == "self" and t1.attr in views:
+                                S = frozenset(S - {("TODO", t1.attr)})
+                if isinstance(a, ast.Call) and isinstance(a.func, ast.Name) and a.func.id == "setattr" and len(a.args) == 3 and isinstance(a.args[0], ast.Name) \
+                        and a.args[0].id == "self":
+                    k = a.args[1]
+                    if isinstance(k, ast.Constant) and k.value in views:
+                        S = frozenset(S - {("TODO", k.value)})
+                    elif not isinstance(k, ast.Constant):
+                        S = frozenset(x for x in S if not (x[0] == "TODO" and x[1] in table_names))    # setattr(self, <name from the literal table>, ..)
+            return S
+    exits, _n = function_exits(fn, Cl(), frozenset({("TODO", v) for v in views}))
+    bad = [(k, St, n) for k, St, n in exits if k in ("return", "fall", "end") and any(x[0] == "TODO" for x in St)]
+    bad = bad or [(k, St, n) for k, St, n in exits if k not in ("raise", "exc") and any(x[0] == "TODO" for x in St)]
+    res.ob("E6:_update_src_and_sens refreshes all views on every path", not bad, {"rule": "E6", "exits_examined": len(exits), "exits_without_a_full_refresh": len(bad)})
+    if bad:
+        k, St, n = bad[0]
+        res.add(Finding("E6", c.mod.rel, "BaseCollection._update_src_and_sens", n if not isinstance(n, ast.FunctionDef) else fn,
+                        f"a path leaves the refresh without storing {sorted(x[1] for x in St if x[0] == 'TODO')}: the typed views keep listing children that are gone "
+                        "(e.g. after the last child was removed)", getattr(n, "lineno", fn.lineno)))
+
+
 def run(repo, res, tier):
-    res.rules = ["E1 tree-edit typestate on all exits", "E2 who-may-write tree attributes", "E3 cycle test dominates parent store", "E4 copy restores the parent link", "E5 typed flattenings share the traversal of children_all", "E5b no level-by-level flattening from typed views"]
+    res.rules = ["E1 tree-edit typestate on all exits", "E2 who-may-write tree attributes", "E3 cycle test dominates parent store", "E4 copy restores the parent link", "E5 typed flattenings share the traversal of children_all", "E5b no level-by-level flattening from typed views", "E6 the view refresh is unconditional"]
     g = CallGraph(repo)
     raising = raising_functions(g)
     # method names that collide with container methods: only the repo meaning counts when the receiver is not a list
@@ -486,6 +539,7 @@ def run(repo, res, tier):
         res.add(Finding("E3", c.mod.rel, "BaseCollection.add", "parent assignment not dominated by the self/ancestor cycle test",
                         f"guards={[norm(x.test) for x in guards]}", stores[0].lineno))
     e5(repo, res)
+    e6(repo, res)
     typed_view_flatten(repo, res, 'E5b')
     res.assumptions += ["container operations (list.remove/append) and isinstance do not raise on the paths examined",
                         "callee summaries: Collection.add (complete on normal return), Collection.remove (detaches on normal return) - "
